@@ -128,12 +128,11 @@ def exprHook (o : Opts) (env : Env) (pos : Pos) (n : Node) (st : St) : Node × S
   | n => (n, st)
 
 /-- the hook that runs for a node of a particular kind once its children were visited
-    (`visit_mut_stmts`, `visit_mut_arrow_expr`, `visit_mut_jsx_opening_element`, `visit_mut_import_decl`,
-     `visit_mut_ts_interface_decl`, `visit_mut_ts_type_alias_decl`, `visit_mut_call_expr`, `visit_mut_var_declarator`) -/
+    (`visit_mut_jsx_opening_element`, `visit_mut_import_decl`, `visit_mut_ts_interface_decl`,
+     `visit_mut_ts_type_alias_decl`, `visit_mut_call_expr`, `visit_mut_var_declarator`);
+    statement lists and arrows are handled in `visit` itself because they act before AND after their children -/
 def kindHook (o : Opts) (env : Env) (n : Node) (st : St) : Node × St :=
   match n with
-  | .mk .stmts as items => let (items, st) := drainInto items st; (.mk .stmts as items, st)
-  | .mk .arrow _ _ => drainArrow n st
   | .mk .jsxOpening _ _ => openingHook n st
   | .mk .importDecl _ _ => (n, importHook n st)
   | .mk .tsIface _ _ => (n, ifaceHook o n st)
@@ -142,12 +141,29 @@ def kindHook (o : Opts) (env : Env) (n : Node) (st : St) : Node × St :=
   | .mk .declarator _ _ => declaratorHook o n st
   | n => (n, st)
 
+/-- forget the pending declarations (they belong to an enclosing scope) -/
+def St.clearPending (st : St) : St := { st with injectingConsts := [], injectingVars := [] }
+
 mutual
 def visit (o : Opts) (env : Env) : Node → Pos → St → Node × St
   | .mk k as ks, pos, st =>
-    let (ks', st) := visitKids o env k pos 0 ks st
-    let (n, st) := kindHook o env (Node.mk k as ks') st
-    exprHook o env pos n st
+    match k, ks with
+    | .stmts, ks =>
+      -- `visit_mut_stmts`: only what was created while visiting this list is declared here
+      let (ks', st') := visitKids o env .stmts pos 0 ks st.clearPending
+      let (items, st'') := drainInto ks' st'
+      (.mk .stmts as items, { st'' with injectingConsts := st.injectingConsts, injectingVars := st.injectingVars })
+    | .arrow, params :: rest =>
+      -- `visit_mut_arrow_expr`: what the parameters need is left to the enclosing scope
+      let (params', st1) := visit o env params (kidPos .arrow pos 0) st
+      let (rest', st2) := visitKids o env .arrow pos 1 rest st1.clearPending
+      let (n, st3) := drainArrow (.mk .arrow as (params' :: rest')) st2
+      exprHook o env pos n { st3 with injectingConsts := st1.injectingConsts ++ st3.injectingConsts,
+                                      injectingVars := st1.injectingVars ++ st3.injectingVars }
+    | k, ks =>
+      let (ks', st) := visitKids o env k pos 0 ks st
+      let (n, st) := kindHook o env (Node.mk k as ks') st
+      exprHook o env pos n st
 def visitKids (o : Opts) (env : Env) (k : K) (pos : Pos) : Nat → List Node → St → List Node × St
   | _, [], st => ([], st)
   | i, c :: cs, st =>
@@ -183,6 +199,26 @@ def buildSlotHelper (helper isVNode : Node) (st : St) : Node × St :=
 def nImportDecl (specs : List Node) (src : String) : Node :=
   .mk .importDecl ["false", "evaluation"] [nList specs, nStr src, nNone]
 
+/-- the end of `visit_mut_module`: pending declarations, the slot helper and the imports are put in front -/
+def finishModule (items : List Node) (st : St) : List Node × St :=
+  let (items, st) := drainInto items st
+  let (items, st) :=
+    match st.slotHelper with
+    | some h =>
+      let (isVNode, st) := st.importFromVue "isVNode"
+      let (decl, st) := buildSlotHelper h isVNode st
+      (decl :: items, st)
+    | none => (items, st)
+  let items :=
+    match st.transformOnHelper with
+    | some h => nImportDecl [.mk .importDefault [] [h]] "@vue/babel-helper-vue-transform-on" :: items
+    | none => items
+  let items :=
+    if !st.imports.isEmpty then
+      nImportDecl (st.imports.map fun p => .mk .importSpec ["false"] [p.2, nQuoteIdent p.1]) "vue" :: items
+    else items
+  (items, st)
+
 /-- `visit_mut_module` -/
 def transformModule (o : Opts) (env : Env) (m : Node) : Node × St :=
   match m with
@@ -190,22 +226,7 @@ def transformModule (o : Opts) (env : Env) (m : Node) : Node × St :=
     let st : St := scanPragmas env {}
     let (items, st) := visitKids o env .list .normal 0 items st
     let (restKids, st) := visitKids o env .module .normal 1 restKids st
-    let (items, st) := drainInto items st
-    let (items, st) :=
-      match st.slotHelper with
-      | some h =>
-        let (isVNode, st) := st.importFromVue "isVNode"
-        let (decl, st) := buildSlotHelper h isVNode st
-        (decl :: items, st)
-      | none => (items, st)
-    let items :=
-      match st.transformOnHelper with
-      | some h => nImportDecl [.mk .importDefault [] [h]] "@vue/babel-helper-vue-transform-on" :: items
-      | none => items
-    let items :=
-      if !st.imports.isEmpty then
-        nImportDecl (st.imports.map fun p => .mk .importSpec ["false"] [p.2, nQuoteIdent p.1]) "vue" :: items
-      else items
+    let (items, st) := finishModule items st
     (.mk .module as (.mk .list las items :: restKids), st)
   | m => (m, ({} : St).panic "not a module")
 
